@@ -241,6 +241,8 @@ def run_halmos(spec, storage_layout=None):
         code[a] = Contract.from_hexcode(acc["code"])
         storage[a] = sevm.mk_storagedata()
         tstorage[a] = sevm.mk_storagedata()
+        if spec.get("symbolic_storage") is not None:
+            storage[a].symbolic = True  # what vm.enableSymbolicStorage(a) does
 
     parts = []
     for p in spec.get("calldata", []):
@@ -431,8 +433,10 @@ class PathEval:
         return sat, assumption_ok, (self.pr.err, data, logs)
 
 
-def default_env(name, descr):
-    """free symbols that are not inputs: the all-zero initial arrays"""
+def default_env(name, descr, init_storage=0):
+    """free symbols that are not inputs: the all-zero initial arrays (or, under symbolic storage, the chosen initial contents)"""
+    if name.startswith("storage_") and name.endswith("_00"):
+        return Arr({}, init_storage) if descr[0] == "array" else init_storage
     if name.endswith("_00") and descr[0] == "array":
         return Arr({}, 0)
     if name == "balance_00":
@@ -442,9 +446,12 @@ def default_env(name, descr):
     raise Unevaluable(f"free symbol {name} {descr}")
 
 
-def mk_env(inputs):
+def mk_env(inputs, init_storage=None):
     env = dict(inputs)
-    env["__default__"] = default_env
+    if init_storage:
+        env["__default__"] = lambda name, descr: default_env(name, descr, init_storage)
+    else:
+        env["__default__"] = default_env
     return env
 
 
@@ -467,6 +474,7 @@ def run_reference(spec, inputs, creates=None, setup_world=None):
         w.code[a] = bytes.fromhex(acc["code"])
         w.storage[a] = {}
         w.transient[a] = {}
+        w.storage_default = spec.get("symbolic_storage") or 0
         b = acc.get("balance")
         if b is not None:
             w.balance[a] = val_of(b, inputs)
